@@ -18,3 +18,8 @@ claim('C06', 'exploration',
       'Assertions scoped to this SP, another SP or near-miss audiences (0-3 restrictions x 0-3 audiences), OneTimeUse and ProxyRestriction are issued by the stub IdP, delivered with the SP clock inside or outside the Conditions window and with benign transport perturbations (duplicate, recompress, delay); the warnings must equal a three-line reference model at every delivery. No fault or schedule is essential to this property; the simulator contributes workload, model and invariance.',
       'trusted: stub IdP; audience comparison is byte-exact as the property states',
       'DESIGN.md 4 C06')
+claim('C02', 'fault_enumeration',
+      'deterministic simulation: seeded federation histories with store roll-over/retirement/replacement events, store I/O faults and clock placement enumerated on certificate bounds',
+      'Each run is a 1-3 step history of one SP whose trust store changes at simulated events; at every step a trusted member, an untrusted key, a trusted certificate paired with a foreign key, tampered signed content or a same-key twin certificate signs one of the four inbound kinds (KeyInfo present or absent), and the transport places the SP clock inside the certificate window or on NotBefore/NotAfter +/- {0,1ns,1s}; a store error can fire on the k-th call. Oracle: reference rule for honoured signatures (DER identity, inclusive window at the SP clock, single-member rule without KeyInfo) and the never-downgrade invariant (bad root signature around good assertion signatures is an error).',
+      'trusted: stub IdP signer and certificate minting (stub CA; the library never checks chains)',
+      'DESIGN.md 4 C02')
